@@ -88,7 +88,7 @@ def requirements(tier):
         "config:bsp": 1,
         "config:pck": 1,
         "config:dynamic-frames": 1,
-        "instant:kernel-span-first": 1, "instant:kernel-span-last": 1, "history:create_frames-again": 1, "history:get_orbit-result-edited-in-place": 100 if q else 2000,
+        "pairs:get_body-propagate": 100, "pairs:get_frame-objects": 100, "instant:kernel-span-first": 1, "instant:kernel-span-last": 1, "history:create_frames-again": 1, "history:get_orbit-result-edited-in-place": 100 if q else 2000,
         "scale:UTC": 10,
         "scale:TDB": 10,
         "scale:TT": 10,
@@ -367,6 +367,24 @@ def run_pairs(ctx, job, idx, rng, st):
             except Exception as exc:
                 ctx.violation("C18/get_orbit-raises", dict(descr, body=names[A], exc=repr(exc)), f"get_orbit({names[A]}) raised {exc!r}")
                 orb = None
+        if job["jpl"] == "pck" and A in st["parent"] and not names[A].endswith("Barycenter"):  # barycentres are no bodies of the PCK
+            # ---- the other public routes to the same vector: jpl.get_body(name).propagate, jpl.get_frame(name) objects
+            P = st["parent"][A]
+            try:
+                body = jpl.get_body(names[A])
+                ob = body.propagate(date)
+                ctx.count("pairs:get_body-propagate")
+                compare("get_body(name).propagate", A, P, probe.arr(ob))
+                fa = jpl.get_frame(names[A])
+                Bx = rng.choice([b for b in bodies if b != A and not names[b].endswith("Barycenter")])
+                zf = StateVector(zero, date, "cartesian", fa).copy(frame=jpl.get_frame(names[Bx]))
+                ctx.count("pairs:get_frame-objects")
+                compare("zero-state(get_frame(A)).copy(frame=get_frame(B))", A, Bx, probe.arr(zf))
+                ctx.expect(body.name == names[A] and fa.name == names[A] and fa.center.body is not None and float(fa.center.body.mu) > 0,
+                           "C18/get_body-get_frame-metadata", dict(descr, body=names[A], got_body=str(body), got_frame=str(fa)),
+                           f"get_body/get_frame({names[A]}) returned {body!r} / {fa!r}")
+            except Exception as exc:
+                ctx.violation("C18/get_body-get_frame-raises", dict(descr, body=names[A], exc=repr(exc)), f"get_body/get_frame({names[A]}) raised {exc!r}")
         for B in bodies:
             if A == B:
                 continue
